@@ -1,5 +1,24 @@
 """Registry of claimed checks (source of MANIFEST.json)."""
 
-CHECKS = {}
+CHECKS = {
+    "C01": {
+        "level": "model_checking",
+        "technique": "TLA+ spec of units as order-free set definitions; TLC-enumerated structures x all row orders replayed into the id functions; TLC trace validation (Trace_Households, Trace_Perm) of permuted full simulations",
+        "text": "TLC enumerates every pointer structure up to 4 persons (MC_Households); each is run through the implementation's id functions under every row order and two labellings and TLC judges that all orders induce the same partitions. On the real rule base, dressed populations are simulated under rotations (every person first once), reversal, random permutations and three index kinds with all nodes requested, and TLC (Trace_Perm) checks per person equality (bit-identical or 1e-9 relative) and partition equality for id columns.",
+        "note": "Bounded: structures <= 4 persons exhaustive (quick: sample of the 4-person ones), API populations sampled; rounding off in API runs; the specification itself contains no row order, so the oracle is equality between runs.",
+    },
+    "C12": {
+        "level": "model_checking",
+        "technique": "TLA+ reference partitions (Households.tla) model-checked for nesting; TLC-enumerated structures x all row orders replayed into the implementation; observations validated by TLC against the reference (Trace_Households)",
+        "text": "The unit definitions of the statement are written as set-level reference partitions in Households.tla; TLC proves the nesting theorems on every enumerated structure, and every structure (<= 4 persons, all row orders, two labellings; sample through the public API) is replayed into eg/ehe/sn/fg/bg/wthh id code whose observed partitions TLC compares with the reference.",
+        "note": "Exhaustive to 4 persons in the family model and the marriage model separately (3 persons mixed in thorough); structures for which the statement's definition is ambiguous (Unambiguous(pop) false) are not judged here; ages only through the under-25 test.",
+    },
+    "C07": {
+        "level": "model_checking",
+        "technique": "TLA+ spec of parameter resolution and rule selection by date (Timeline.tla); TLC model check on abstract timelines (MC_Timeline) replayed into the YAML loader; TLC trace validation of real environments on all change-day classes (Trace_Timeline)",
+        "text": "Timeline.tla specifies, from the raw dated entries alone, the value of every parameter on every day (latest entry, previous chains, cross-file deviations, prior-date look-ups incl. leap days, rounding specs with all fields) and the active implementation of every column name. TLC proves 'constant between change days' on every abstract timeline of MC_Timeline; sampled abstract timelines are written as YAML and resolved by the real loader; environments and rule tables of the real files on every change day, its eve, look-back images, leap days and seeded interior days are validated by TLC against the specification.",
+        "note": "Raw YAML entries and decorator dates are law data (trusted input); parsed piecewise schedules compared in raw form here (C18 for parsed form); quick tier covers all change days since 2015 plus a seeded sample of earlier ones, thorough all since 1980.",
+    },
+}
 
 NOT_APPLICABLE = {}
